@@ -759,4 +759,161 @@ theorem TGc_hsTls {L : Laws K} {b : Bytes} {s : St K} (child : Child) (d : Bytes
           have := TGc_receiveData child [] (TGc_emit (Or.inr (core c2 hc2)) [.hook 2] rfl)
           simpa using this
 
+theorem TGc_startHandshake {L : Laws K} {b : Bytes} {s : St K} (env : Env K) (child : Child)
+    (hfresh : ∀ c, env.mkTls = some c → Fresh L c) (g : TGc L b [] s) : TGc L b [] (startHandshake env child s) := by
+  unfold startHandshake
+  split
+  · exact g
+  · rename_i hside
+    obtain ⟨a1, a2⟩ := TGc_startTls env hfresh (by simp [hside]) g
+    split
+    · rename_i s' hs'; rw [hs'] at a1; exact a1 rfl
+    · rename_i s' hs'; rw [hs'] at a2
+      rcases a2 rfl with hc | ⟨g', hb, _, _, _, _⟩
+      · left; exact hsTls_mono _ _ _ hc
+      · have hb0 := hb hside; subst hb0
+        simpa using TGc_hsTls child [] (Or.inr g')
+
+theorem TGc_recvHandshake {L : Laws K} {b : Bytes} {s : St K} (env : Env K) (child : Child) (d : Bytes)
+    (hfresh : ∀ c, env.mkTls = some c → Fresh L c) (g : TGc L b [] s) :
+    TGc L (b ++ d) [] (recvHandshake env child s d).1 := by
+  rcases g with g | g
+  · left; exact recvHandshake_mono _ _ _ _ g
+  · unfold recvHandshake
+    split
+    · exact TGc_hsTls child d (Or.inr g)
+    · rename_i hside
+      split
+      · exact TGc_hsTls child d (Or.inr g)
+      · rename_i hhp
+        have hn : s.tls = none := by
+          cases ht : s.tls with
+          | none => rfl
+          | some c => exact absurd ((g.ts c ht).2.2.2.2.2.2 hside) hhp
+        obtain ⟨t1, t2, t3, t4, t5, t6⟩ := g.tn hn
+        have hbuf : s.recvBuf ++ d = b ++ d := by rw [t2 hside]
+        -- the buffer grew: the invariant for the longer inbound stream
+        have gb : ∀ hpv : Bool, TG L true (b ++ d) [] ({ s with recvBuf := s.recvBuf ++ d, helloParsed := hpv } : St K) := by
+          intro hpv
+          refine ⟨fun _ => ⟨fun h => by simp [hside] at h, fun _ => hbuf, t3, rfl, t5, t6⟩, ?_⟩
+          intro c hc; simp [hn] at hc
+        simp only []
+        split
+        · exact Or.inr (TG_congr (gb s.helloParsed) rfl)
+        · exact Or.inr (TG_congr (gb s.helloParsed) rfl)
+        · have g1 : TGc L (b ++ d) [] (if env.serverFirst = true then
+              emit (emit { s with recvBuf := s.recvBuf ++ d, helloParsed := true } [Up.hook 1]) [Up.openServer]
+              else emit { s with recvBuf := s.recvBuf ++ d, helloParsed := true } [Up.hook 1]) := by
+            split
+            · exact TGc_emit (TGc_emit (Or.inr (gb true)) _ rfl) _ rfl
+            · exact TGc_emit (Or.inr (gb true)) _ rfl
+          obtain ⟨a1, a2⟩ := TGc_startTls env hfresh (by intro _; split <;> rfl) g1
+          split
+          · rename_i s' hs'; rw [hs'] at a1; exact a1 rfl
+          · rename_i s' hs'; rw [hs'] at a2
+            rcases a2 rfl with hc | ⟨g', _, hrb, hsd, hrb2, hsome⟩
+            · left; exact hsTls_mono _ _ _ (by simpa using hc)
+            · have g'' : TG L true [] [] ({ s' with recvBuf := [] } : St K) := by
+                refine ⟨fun hn' => ?_, fun c hc => g'.ts c hc⟩
+                simp only [] at hn'
+                rw [hn'] at hsome; cases hsome
+              have := TGc_hsTls child (s.recvBuf ++ d) (Or.inr g'')
+              rw [hbuf] at this ⊢
+              simpa using this
+
+theorem TGc_onHandshakeError {L : Laws K} {b : Bytes} {s : St K} (g : TGc L b [] s) : TGc L b [] (onHandshakeError s) := by
+  unfold onHandshakeError
+  simp only []
+  split
+  · exact TGc_congr (TGc_emit g [.log 2, .hook 3, .close] rfl) rfl rfl
+  · exact TGc_emit g _ rfl
+
+theorem TGc_foldl_etcCore {L : Laws K} {b : Bytes} (child : Child) (q : List CEv) : ∀ {t : St K}, TGc L b [] t →
+    TGc L b [] (q.foldl (etcCore child) t) := by
+  induction q with
+  | nil => intro t g; exact g
+  | cons e q ih => intro t g; simp only [List.foldl_cons]; exact ih (TGc_etcCore child e g)
+
+theorem TGc_handshakeFinished {L : Laws K} {b : Bytes} {s : St K} (child : Child) (err : Bool) (g : TGc L b [] s) :
+    TGc L b [] (handshakeFinished child s err) := by
+  unfold handshakeFinished
+  simp only []
+  split
+  · exact TGc_congr (TGc_etc child (.opened err) (TGc_congr (s' := setSt s (if err then .closed else .open_)) g rfl rfl)
+      (by simp [plainOf])) rfl rfl
+  · exact TGc_congr (TGc_foldl_etcCore child s.queue (TGc_congr (s' := setSt s (if err then .closed else .open_)) g rfl rfl)) rfl rfl
+
+theorem TGc_hsData {L : Laws K} {b : Bytes} {s : St K} (env : Env K) (child : Child) (d : Bytes)
+    (hfresh : ∀ c, env.mkTls = some c → Fresh L c) (g : TGc L b [] s) : TGc L (b ++ d) [] (hsData env child s d) := by
+  unfold hsData
+  have g1 := TGc_recvHandshake env child d hfresh g
+  generalize recvHandshake env child s d = r at g1
+  obtain ⟨s1, dn, er⟩ := r
+  simp only [] at g1 ⊢
+  have g2 : TGc L (b ++ d) [] (if er = true then onHandshakeError s1 else s1) := by
+    split
+    · exact TGc_onHandshakeError g1
+    · exact g1
+  split
+  · exact TGc_handshakeFinished child er g2
+  · exact g2
+
+def dataOfEv : Ev → Bytes
+  | .data d => d
+  | _ => []
+
+theorem TGc_handle {L : Laws K} {b : Bytes} {s : St K} (env : Env K) (child : Child) (ev : Ev)
+    (hfresh : ∀ c, env.mkTls = some c → Fresh L c) (g : TGc L b [] s) :
+    TGc L (b ++ dataOfEv ev) [] (handle env child s ev) := by
+  cases ev with
+  | start connOpen =>
+    simp only [handle, dataOfEv, List.append_nil]
+    refine TGc_etc (o := []) child .start ?_ (by simp [plainOf])
+    split
+    · exact TGc_startHandshake env child hfresh (TGc_congr g rfl rfl)
+    · exact g
+  | data d =>
+    simp only [handle, dataOfEv]
+    split
+    · exact TGc_hsData env child d hfresh (TGc_congr g rfl rfl)
+    · exact TGc_receiveData child d (TGc_congr g rfl rfl)
+  | closeEv =>
+    simp only [handle, dataOfEv, List.append_nil]
+    suffices h : ∀ t : St K, TGc L b [] t → TGc L b [] ({ t with st := .closed } : St K) by
+      apply h
+      split
+      · split
+        · split
+          · exact g
+          · exact TGc_etc child .closed g (by simp [plainOf])
+        · left; rfl
+      · split
+        · exact TGc_handshakeFinished child true (TGc_onHandshakeError g)
+        · exact g
+    intro t gt; exact TGc_congr gt rfl rfl
+  | other n =>
+    simp only [handle, dataOfEv, List.append_nil]
+    exact TGc_etc child (.other n) g (by simp [plainOf])
+  | openReply err =>
+    simp only [handle, dataOfEv, List.append_nil]
+    split
+    · exact g
+    · split
+      · exact TGc_congr (TGc_etc child (.opened true) g (by simp [plainOf])) rfl rfl
+      · exact TGc_startHandshake env child hfresh g
+
+def dataOf (evs : List Ev) : Bytes := (evs.map dataOfEv).flatten
+
+theorem TGc_run {L : Laws K} (env : Env K) (child : Child) (hfresh : ∀ c, env.mkTls = some c → Fresh L c)
+    (evs : List Ev) : ∀ {b : Bytes} {s : St K}, TGc L b [] s → TGc L (b ++ dataOf evs) [] (run env child s evs) := by
+  induction evs with
+  | nil => intro b s g; simpa [run, dataOf] using g
+  | cons e evs ih =>
+    intro b s g
+    have := ih (TGc_handle env child e hfresh g)
+    simpa [run, dataOf, List.append_assoc] using this
+
+theorem TG_init (L : Laws K) (sd : Side) : TG L true [] [] ({ side := sd } : St K) := by
+  refine ⟨fun _ => ⟨fun _ => rfl, fun _ => rfl, rfl, rfl, rfl, rfl⟩, fun c hc => by simp at hc⟩
+
 end MitmVerif.C14.Hist
